@@ -6,7 +6,8 @@
    lengths and key sets are arbitrary. *)
 From PM.theories Require Import Base Expr Store.
 From PM.Generated Require Import GenStore.
-From PM.proofs Require Import Store_proofs.
+From PM.theories Require Import CorrStore.
+From PM.proofs Require Import Store_proofs StoreHist_proofs.
 Open Scope list_scope.
 Open Scope Z_scope.
 
@@ -147,6 +148,24 @@ Theorem C18_server_set_get : forall s u c s' v,
   sv_getitem code s' v = if u =? v then Ok c else sv_getitem code s v.
 Proof. exact sv_set_then_get. Qed.
 Print Assumptions C18_server_set_get.
+
+(* --- all histories: refinement to the abstract map ----------------------------------------
+   For every block whose key set has no duplicates (always true of a Python dict; automatic for
+   sequential blocks) and EVERY sequence of validate/get/set/reset/iterate operations, the model's
+   outputs satisfy the abstract-map oracle [prop_block]: validate = "all cells populated", an
+   accepted read returns the cells in address order, an accepted write updates exactly those cells
+   (visible to every later operation), reset keeps the key set, iteration lists exactly the cells.
+   [prop_block] is the same executable oracle the correspondence check applies to the real classes. *)
+Theorem C18_histories : forall ops b,
+  keys_ok b ->
+  prop_block (blk_default b) (blk_iter b) ops (run_block code b ops) = true.
+Proof. exact model_satisfies_oracle. Qed.
+Print Assumptions C18_histories.
+
+Theorem C18_histories_sequential : forall ops s,
+  prop_block (sb_def s) (seq_iter s) ops (run_block code (BSeq s) ops) = true.
+Proof. exact model_satisfies_oracle_seq. Qed.
+Print Assumptions C18_histories_sequential.
 
 (* --- non-vacuity: the hypotheses are met by concrete non-trivial values --------------- *)
 
